@@ -431,6 +431,54 @@ func roundTrip[T any](run *vk.Run, bus *ebu.EventBus, mem *ebu.MemoryStore, valu
 	}
 }
 
+// readersLeaveRecords: the records stay what the publishes wrote, whatever reads them afterwards —
+// a plain replay, an upcasting replay with an upcaster registered for every stored type, and a
+// typed replay subscription.
+func readersLeaveRecords(run *vk.Run, bus *ebu.EventBus, mem *ebu.MemoryStore) {
+	ctx := context.Background()
+	type rec struct {
+		off  ebu.Offset
+		typ  string
+		data string
+	}
+	snap := func() (l []rec) {
+		evs, _, _ := mem.Read(ctx, ebu.OffsetOldest, 0)
+		for _, e := range evs {
+			l = append(l, rec{e.Offset, e.Type, string(e.Data)})
+		}
+		return
+	}
+	before := snap()
+	types := map[string]bool{}
+	for _, r := range before {
+		types[r.typ] = true
+	}
+	for tn := range types {
+		to := tn + ".next"
+		ebu.RegisterUpcastFunc(bus, tn, to, func(d json.RawMessage) (json.RawMessage, string, error) {
+			return json.RawMessage(`{"upcast":true}`), to, nil
+		})
+	}
+	seen := 0
+	bus.Replay(ctx, ebu.OffsetOldest, func(*ebu.StoredEvent) error { seen++; return nil })
+	bus.ReplayWithUpcast(ctx, ebu.OffsetOldest, func(*ebu.StoredEvent) error { seen++; return nil })
+	ebu.SubscribeWithReplay(ctx, bus, "c09-reader", func(named) { seen++ })
+	after := snap()
+	run.Count("records_reread_after_readers", int64(len(after)))
+	if len(after) != len(before) {
+		run.Violation("record:changed-by-a-reader", fmt.Sprintf("the log had %d records, after replays and a replay subscription it has %d", len(before), len(after)), nil)
+		return
+	}
+	for i := range before {
+		if before[i] != after[i] {
+			run.Violation("record:changed-by-a-reader", fmt.Sprintf("record %s was {%s %s}; after Replay / ReplayWithUpcast / SubscribeWithReplay had read the log it is {%s %s}", before[i].off, before[i].typ, before[i].data, after[i].typ, after[i].data),
+				map[string]any{"offset": string(before[i].off)})
+			return
+		}
+	}
+	run.Case(fmt.Sprintf("readers|%d types", min(len(types), 8)), seen > 0)
+}
+
 func TestC09Values(t *testing.T) {
 	run := vk.New("C09", "values")
 	defer run.Finish()
@@ -440,6 +488,9 @@ func TestC09Values(t *testing.T) {
 	for i := 0; i < n; i++ {
 		r := run.Rand(uint64(i))
 		if i%500 == 0 {
+			if i > 0 {
+				readersLeaveRecords(run, bus, mem)
+			}
 			mem = ebu.NewMemoryStore()
 			bus = ebu.New(ebu.WithStore(mem))
 		}
@@ -491,6 +542,7 @@ func TestC09Values(t *testing.T) {
 			}
 		}
 	}
+	readersLeaveRecords(run, bus, mem)
 }
 
 // ---------------------------------------------------------------------------------------------
